@@ -80,6 +80,17 @@ _C16 = [
      ["PacketBuilderStep<UdpHeader>::{write_to_slice,size}", "final_write_to_slice", "SliceCoreWrite"]),
 ]
 
+def _shared():
+    # the builder's space error for EVERY too-short output slice is decided by a C10 harness (one builder run, checksum
+    # kernels stubbed as justified by C09); it runs in C16's quick tier as well: seeded change C16_A (required length
+    # reported too small for very short slices) is otherwise only seen by C16's thorough builder harnesses
+    try:
+        from reg import c10
+        return [h for h in c10.PROP["harnesses"] if h["name"] == "c10_err_slice_space"]
+    except Exception:
+        return []
+
+
 ID = "C16"
 PROP = {
     "max_jobs": 8,  # parallel CBMC jobs (memory profile of these harnesses)
@@ -133,5 +144,5 @@ PROP = {
         "it is the right encoding is C08's subject",
         "io::Error values are inspected with kind() and then forgotten (never dropped) to keep symbolic execution tractable",
     ],
-    "harnesses": [H(n, "c16", tier=t, timeout=to, unwind=u, bounds=b, encodes=e) for (n, t, to, u, b, e) in _C16],
+    "harnesses": [H(n, "c16", tier=t, timeout=to, unwind=u, bounds=b, encodes=e) for (n, t, to, u, b, e) in _C16] + _shared(),
 }
